@@ -155,7 +155,7 @@ theorem c01_tool_path (T : Tables) (env : Env) (tools : List ToolReg) (allowed :
             · exact h1 a h
             · exact h2 a h
           | ok ks =>
-            refine ⟨t1 ++ t2, ?_, Or.inr ⟨tn, args, kn, kv, t, as, ks, rfl, ht, hcap, by simp [R.bind, R.act]⟩⟩
+            refine ⟨t1 ++ t2, ?_, Or.inr ⟨tn, args, kn, kv, t, as, dictOf ks, rfl, ht, hcap, by simp [R.bind, R.act]⟩⟩
             intro a ha; rcases List.mem_append.mp ha with h | h
             · exact h1 a h
             · exact h2 a h
@@ -200,11 +200,42 @@ theorem c01_never_raises_current_source (T : Tables) (env : Env) (cfg : Cfg) (hp
   obtain ⟨s, v, r, p, h⟩ := c01_total T env cfg (by rw [hp]; decide) (by rw [hd]; decide) latched d inp forced
   rw [h]; exact fun h => nomatch h
 
+/-- The legacy entry point `digest_glucose` (what `BioAgent` calls for "calculate …" prompts) returns a string — never
+    raises — for every input, environment and configuration, when additionally the `str(value)` conversion is
+    guarded; in particular when rendering the value as text raises (an int of more than 4300 digits). -/
+theorem c01_total_legacy (T : Tables) (env : Env) (cfg : Cfg) (hp : cfg.printInTry = true)
+    (hd : cfg.dispatchInTry = true) (hs : cfg.strGuarded = true) (latched : Bool) (inp : Inp) (strRaises : Bool) :
+    ∃ ok, (digestGlucose T env cfg latched inp strRaises).2 = .text ok := by
+  obtain ⟨s, v, r, p, h⟩ := c01_total T env cfg hp hd latched .glycolysis inp (some .glycolysis)
+  unfold digestGlucose
+  rcases hm : metabolize T env cfg latched .glycolysis inp (some .glycolysis) with ⟨t, o⟩
+  rw [hm] at h
+  simp only at h
+  subst h
+  cases s <;> cases strRaises <;> simp [hs]
+
+/-- … and the current source has that guard (E1), so `digest_glucose` as it stands never raises. -/
+theorem c01_legacy_never_raises_current_source (T : Tables) (env : Env) (cfg : Cfg)
+    (hp : cfg.printInTry = Gen.printInTry) (hd : cfg.dispatchInTry = Gen.dispatchInTry)
+    (hs : cfg.strGuarded = Gen.strGuarded) (latched : Bool) (inp : Inp) (strRaises : Bool) :
+    (digestGlucose T env cfg latched inp strRaises).2 ≠ .raised := by
+  obtain ⟨ok, h⟩ := c01_total_legacy T env cfg (by rw [hp]; decide) (by rw [hd]; decide) (by rw [hs]; decide)
+    latched inp strRaises
+  rw [h]; exact fun h => nomatch h
+
+/-- The pre-fix shape of `digest_glucose` is expressible and raises: a successful evaluation whose value cannot be
+    rendered (`10**5000`) with the conversion unguarded (the defect repaired in /repo). -/
+theorem c01_legacy_unguarded_str_raises_witness :
+    (digestGlucose ⟨[], [], [], [], []⟩ ⟨fun _ => .h 0, fun _ _ => .error "", fun _ => .error "", fun _ _ _ => .error "",
+        fun _ _ _ => .error ""⟩ ⟨10000, true, false, [], none, true, true, false⟩ false
+        ⟨8, some (.const (.h 7)), none, false⟩ true).2 = .raised := by
+  rfl
+
 /-- The pre-fix shape is expressible and does raise: with the print outside the handler a lone surrogate on a
     non-silent engine escapes (the defect repaired by commit c4da247). -/
 theorem c01_print_outside_try_raises_witness :
     (metabolize ⟨[], [], [], [], []⟩ ⟨fun _ => .h 0, fun _ _ => .error "", fun _ => .error "", fun _ _ _ => .error "",
-        fun _ _ _ => .error ""⟩ ⟨10000, false, false, [], none, false, true⟩ false .glycolysis
+        fun _ _ _ => .error ""⟩ ⟨10000, false, false, [], none, false, true, true⟩ false .glycolysis
         ⟨8, none, none, true⟩ none).2 = .raised := by
   rfl
 
@@ -244,7 +275,10 @@ example : Expr.other "Attribute" [.const (.h 1)] ∈
   simp [Expr.strictSub, strictList, strictKws]
 
 /-- `c01_total` / `c01_never_raises_current_source`: a configuration with both flags as extracted -/
-example : (⟨10000, false, false, [], none, Gen.printInTry, Gen.dispatchInTry⟩ : Cfg).printInTry = true := by decide
+example : (⟨10000, false, false, [], none, Gen.printInTry, Gen.dispatchInTry, Gen.strGuarded⟩ : Cfg).printInTry = true := by decide
+
+/-- `c01_total_legacy`: the flags as extracted from the current source -/
+example : Gen.strGuarded = true ∧ Gen.printInTry = true ∧ Gen.dispatchInTry = true := by decide
 
 /-- `c01_tool_path` second alternative is reachable: a registered tool runs exactly once, last -/
 example : (toolPath Gen.tables envAll [⟨"t", []⟩] none (.call (.name "t") [.name "pi"] [] [])).1
@@ -252,7 +286,7 @@ example : (toolPath Gen.tables envAll [⟨"t", []⟩] none (.call (.name "t") [.
   rfl
 
 /-- `c01_guards_run_nothing`: an over-long input -/
-example : (10001 : Nat) > (⟨10000, true, false, [], none, true, true⟩ : Cfg).maxLen := by decide
+example : (10001 : Nat) > (⟨10000, true, false, [], none, true, true, true⟩ : Cfg).maxLen := by decide
 
 /-- `c01_bounded_partial`: `12 * 34 + 5` is pow-free -/
 example : (IExpr.add (.mul (.lit 12) (.lit 34)) (.lit 5)).powFree = true := by decide
